@@ -2,6 +2,7 @@ import AdaptixModel.Protocol
 import AdaptixModel.Gen.Quote
 import AdaptixModel.Gen.Names
 import AdaptixModel.Gen.Skeleton
+import AdaptixModel.Gen.CtorCall
 import AdaptixModel.Generated.C19Sites
 
 /-! JSON ops of the C19 driver.  Strings travel as arrays of code points. -/
@@ -42,6 +43,25 @@ def decPiece (j : Json) : Except String Piece := do
   | "int" => return .int (← fieldS j "s")
   | "comment" => return .comment (← fieldS j "s")
   | k => throw s!"bad piece {k}"
+
+def decCParam (j : Json) : Except String CParam := do
+  let kind ← match ← fieldStr j "kind" with
+    | "po" => pure PKind.posOnly
+    | "pk" => pure PKind.posOrKw
+    | "kw" => pure PKind.kwOnly
+    | k => throw s!"bad parameter kind {k}"
+  return { fieldId := ← fieldS j "fid", name := ← fieldS j "name", kind := kind, leftOut := ← fieldBool j "out" }
+
+def encArg : Arg → Json
+  | .pos v => Json.mkObj [("k", "pos"), ("v", encStr v)]
+  | .kw key v => Json.mkObj [("k", "kw"), ("key", encStr key), ("v", encStr v)]
+  | .unpack v => Json.mkObj [("k", "unpack"), ("v", encStr v)]
+
+/-- a finite table as the NFKC oracle: strings that are not listed are their own normal form -/
+def tableFn (table : List (Str × Str)) : Str → Str :=
+  fun s => match table.find? (fun e => e.1 == s) with
+    | some e => e.2
+    | none => s
 
 structure NsState where
   ns : Namespace
@@ -109,7 +129,35 @@ def handle : Protocol.Handler := fun j => do
       ("keyword", Json.bool ((Tok.name cn).isKeyword pyKeywords)),
       ("header", match tokenize (defHeader cn) with | none => Json.null | some ts => listJ (ts.map encTok)),
       ("call", match tokenize (callHead cn) with | none => Json.null | some ts => listJ (ts.map encTok))]
+  | "ctorcall" =>
+    -- the constructor call `_gen_constructor_call` writes for a parameter list: text, what the model lexer makes of
+    -- it, the parser's reading of these tokens and the call plan the shape asks for
+    let ps ← (← fieldArr j "params").mapM decCParam
+    let pr ← fieldS j "printable"
+    let ist ← fieldS j "idstart"
+    let ic ← fieldS j "idcont"
+    let table ← (← fieldArr j "nfkc").mapM (fun e => do
+      let pair ← asArr e
+      match pair with
+      | [a, b] => return (← decStr a, ← decStr b)
+      | _ => throw "bad nfkc pair")
+    let nfkc := tableFn table
+    let ind ← fieldNat j "ind"
+    let packed ← fieldBool j "packed"
+    let extra ← (do let e ← field j "extra"; if e.isNull then pure none else pure (some (← decStr e)))
+    let canKw := canBeKeywordArgName (oracle ist) (oracle ic) pyKeywords nfkc
+    let txt := render (oracle pr) (ctorCall canKw ind packed extra ps)
+    let lexed := tokenize txt
+    let encPlan : Option (Str × List Arg) → Json := fun r => match r with
+      | none => Json.null
+      | some (f, as) => Json.mkObj [("callee", encStr f), ("args", listJ (as.map encArg))]
+    return Json.mkObj [("text", encStr txt),
+      ("can_kw", listJ (ps.map (fun p => Json.bool (canKw p.name)))),
+      ("lexed", match lexed with | none => Json.null | some ts => listJ (ts.map encTok)),
+      ("plan", match lexed with | none => Json.null | some ts => encPlan (parseCall pyKeywords nfkc ts)),
+      ("expected", encPlan (some (constructorWord, expectedArgs false ps ++ expectedTail packed extra)))]
   | "idcont_ascii" => return listJ (((List.range 128).filter isIdCont).map natJ)
+  | "idstart_ascii" => return listJ (((List.range 128).filter isIdStart).map natJ)
   | "tokenize" =>
     let s ← fieldS j "s"
     let fams ← (← fieldArr j "fams").mapM decStr
